@@ -1,0 +1,66 @@
+//go:build verif
+
+package client
+
+import (
+	"context"
+	"net"
+	"sync/atomic"
+	"time"
+
+	"github.com/datastax/go-cassandra-native-protocol/frame"
+)
+
+// Verification hooks, only compiled with the "verif" build tag. They add observation and scheduling points for an
+// external test harness and change no behaviour when VerifPoint is nil.
+
+var verifPointFn atomic.Value // of func(string)
+
+// SetVerifPoint installs (or, with nil, removes) the function called at every verifPoint.
+func SetVerifPoint(f func(name string)) {
+	if f == nil {
+		verifPointFn.Store((func(string))(nil))
+	} else {
+		verifPointFn.Store(f)
+	}
+}
+
+func verifPoint(name string) {
+	if f, _ := verifPointFn.Load().(func(string)); f != nil {
+		f(name)
+	}
+}
+
+// VerifInFlight exposes the unexported in-flight requests handler (stream id management and response routing).
+type VerifInFlight struct {
+	h *inFlightRequestsHandler
+}
+
+func NewVerifInFlight(ctx context.Context, maxInFlight int, maxPending int, timeout time.Duration) *VerifInFlight {
+	return &VerifInFlight{newInFlightRequestsHandler("verif", ctx, maxInFlight, maxPending, timeout)}
+}
+
+// Enqueue registers an outgoing request frame, exactly as CqlClientConnection.Send does before queueing the frame.
+func (v *VerifInFlight) Enqueue(f *frame.Frame) (InFlightRequest, error) {
+	return v.h.onOutgoingFrameEnqueued(f)
+}
+
+// Deliver routes an incoming response frame, exactly as the connection's incoming loop does.
+func (v *VerifInFlight) Deliver(f *frame.Frame) error { return v.h.onIncomingFrameReceived(f) }
+
+func (v *VerifInFlight) Close() { v.h.close() }
+
+// Len is the number of registered in-flight requests.
+func (v *VerifInFlight) Len() int {
+	v.h.inFlightLock.RLock()
+	defer v.h.inFlightLock.RUnlock()
+	return len(v.h.inFlight)
+}
+
+// VerifAddr returns the address the server actually listens on (useful with port 0).
+func (server *CqlServer) VerifAddr() net.Addr {
+	if server.listener == nil {
+		return nil
+	}
+	return server.listener.Addr()
+}
